@@ -139,6 +139,7 @@ class Engine(object):
         self.timeout_ms = timeout_ms
         self.max_paths = max_paths
         self.cross_solver = cross_solver
+        self.cross_budget_s, self.cross_spent, self.cross_queries = 120, 0.0, 0
         self.obligations = []
         self.paths = []           # per finished path: dict(id, decisions, outcome)
         self.notes = []           # assumptions / unroll / caps recorded mechanically
@@ -362,8 +363,16 @@ class Engine(object):
                 r = r2
         dt = time.time() - t0
         if r == z3.unsat:
-            if self.cross_solver and backend.startswith('z3'):
-                r2 = self._cvc5(z3.Not(t))
+            if self.cross_solver and backend.startswith('z3') and self.cross_spent < self.cross_budget_s:
+                # second opinion (thorough tier): short per-query limit and a per-unit budget - the cross-check must
+                # never be what makes a check undecided
+                t1 = time.time()
+                r2 = self._cvc5(z3.Not(t), limit_ms=min(self.timeout_ms, 4000))
+                self.cross_spent += time.time() - t1
+                self.cross_queries += 1
+                if self.cross_spent >= self.cross_budget_s:
+                    self.notes.append('cvc5 cross-check budget (%d s) used up after %d obligations of this unit; the remaining '
+                                      'ones are decided by z3 alone' % (self.cross_budget_s, self.cross_queries))
                 if r2 == z3.sat:
                     raise EngineError('solver disagreement on %s/%s' % (self.unit, label))
                 if r2 == z3.unsat:
@@ -438,7 +447,8 @@ class Engine(object):
         return m
 
     # -- second solver -----------------------------------------------------------
-    def _cvc5(self, negated_goal):
+    def _cvc5(self, negated_goal, limit_ms=None):
+        limit_ms = limit_ms or self.timeout_ms
         exe = '/usr/bin/cvc5'
         if not os.path.exists(exe):
             return None
@@ -451,8 +461,8 @@ class Engine(object):
             with os.fdopen(fd, 'w') as f:
                 f.write(smt)
             try:
-                out = subprocess.run([exe, '--strings-exp', '--tlimit=%d' % self.timeout_ms, path],
-                                     capture_output=True, text=True, timeout=self.timeout_ms / 1000 + 5)
+                out = subprocess.run([exe, '--strings-exp', '--tlimit=%d' % limit_ms, path],
+                                     capture_output=True, text=True, timeout=limit_ms / 1000 + 5)
             except subprocess.TimeoutExpired:
                 return None
             first = (out.stdout.strip().splitlines() or [''])[0]
